@@ -26,7 +26,7 @@ CLAIMED = {
 CLAIMED["C16"] = ("E2 mir-smt", "4 C16",
     "Bounded model checking over interleavings: the MIR of PidAllocator::allocate and Node::make_reference (regenerated from the working "
     "tree) is executed symbolically into a visible-action tree (lock, guard drop and every atomic access are steps); z3 decides, for a "
-    "symbolic start state and a symbolic schedule of 2 threads (3 threads / 2x2 calls thorough), that no MIR overflow assert fires and no "
+    "symbolic start state and a symbolic schedule of 2 threads x 1 call (make_reference thorough: also 3 threads and 2x2 calls; for allocate those do not finish within an hour and are outside the claim), that no MIR overflow assert fires and no "
     "two results collide; plus an inductive step and an injectivity window of 2^52 ranks for sequential histories.",
     "MIR->SMT symbolic execution + z3 BMC over symbolic schedules; counterexample schedules replayed natively through yield-point hooks")
 E1T = "kani+cbmc bounded model checking per shape, counterexamples replayed natively"
@@ -92,7 +92,7 @@ NA = {
 }
 import subprocess
 HOOK_COMMITS = [l.split()[0] for l in subprocess.run(["git", "-C", "/repo", "log", "--format=%h %s"], stdout=subprocess.PIPE, text=True).stdout.splitlines()
-                if l.split(" ", 1)[1].startswith("hooks")]
+                if l.split(" ", 1)[1].startswith("verif hooks")]
 PENDING = {}   # filled below for properties whose checks are not (yet) registered
 
 
